@@ -136,6 +136,37 @@ pub fn check_reports(reports: &[Rep], current: &St) -> Result<(), (String, Strin
     Ok(())
 }
 
+/// A listener that panics in every callback; registered BEFORE the recorder it must not disturb.
+#[derive(Debug)]
+pub struct Panicker;
+
+impl Listener<(), Option<usize>> for Panicker {
+    fn on_state_changed(&self, _: &CoroutineLocal, _: St, _: St) {
+        panic!("listener panics in on_state_changed");
+    }
+    fn on_ready(&self, _: &CoroutineLocal, _: St) {
+        panic!("listener panics in on_ready");
+    }
+    fn on_running(&self, _: &CoroutineLocal, _: St) {
+        panic!("listener panics in on_running");
+    }
+    fn on_suspend(&self, _: &CoroutineLocal, _: St) {
+        panic!("listener panics in on_suspend");
+    }
+    fn on_syscall(&self, _: &CoroutineLocal, _: St) {
+        panic!("listener panics in on_syscall");
+    }
+    fn on_cancel(&self, _: &CoroutineLocal, _: St) {
+        panic!("listener panics in on_cancel");
+    }
+    fn on_complete(&self, _: &CoroutineLocal, _: St, _: Option<usize>) {
+        panic!("listener panics in on_complete");
+    }
+    fn on_error(&self, _: &CoroutineLocal, _: St, _: &str) {
+        panic!("listener panics in on_error");
+    }
+}
+
 pub struct Built {
     pub co: SchedulableCoroutine<'static>,
     pub pc: Arc<AtomicUsize>,
@@ -143,7 +174,7 @@ pub struct Built {
 }
 
 /// Build the coroutine for `prog`. Each executed step bumps `pc` first.
-pub fn build(prog: &[usize], name: &str, ret: usize) -> Built {
+pub fn build(prog: &[usize], name: &str, ret: usize, panicker: bool) -> Built {
     let pc = Arc::new(AtomicUsize::new(0));
     let reports = Arc::new(Mutex::new(Vec::new()));
     let p = prog.to_vec();
@@ -189,6 +220,9 @@ pub fn build(prog: &[usize], name: &str, ret: usize) -> Built {
         Some(64 * 1024)
     )
     .expect("create coroutine");
+    if panicker {
+        co.add_listener(Panicker);
+    }
     co.add_listener(Recorder(reports.clone()));
     Built { co, pc, reports }
 }
@@ -200,9 +234,9 @@ struct Outcome {
 }
 
 /// Replay one driver history on a fresh coroutine (on the calling, fresh thread).
-fn run_history(prog: &[usize], hist: &[usize]) -> Outcome {
+fn run_history(prog: &[usize], hist: &[usize], panicker: bool) -> Outcome {
     open_coroutine_core::verif::clock_enable(T0);
-    let mut b = build(prog, "c07", 7);
+    let mut b = build(prog, "c07", 7, panicker);
     let mut viol = None;
     let mut term_seen: Option<(St, usize, usize)> = None; // (state, pc, #reports) at the terminal state
     let mut ill_formed = false;
@@ -282,6 +316,8 @@ fn run_history(prog: &[usize], hist: &[usize]) -> Outcome {
 pub struct Case {
     prog: Vec<usize>,
     depth: usize,
+    /// a listener that panics in every callback is registered before the recording one
+    panicker: bool,
 }
 
 fn prog_json(p: &[usize]) -> Value {
@@ -313,7 +349,7 @@ fn exec(case: &Case, em: &mut Emitter) {
     let mut ill = 0u64;
     while let Some(h) = frontier.pop_front() {
         em.emit(json!({"t":"at","h":h}));
-        let out = on_fresh_thread(|| run_history(&case.prog, &h));
+        let out = on_fresh_thread(|| run_history(&case.prog, &h, case.panicker));
         execs += 1;
         if !h.is_empty() {
             transitions += 1;
@@ -367,9 +403,13 @@ fn programs(max_len: usize) -> Vec<Vec<usize>> {
 
 pub fn run(tier: &str, rep: &mut Report) {
     let (plen, depth) = if tier == "thorough" { (3, 6) } else { (2, 5) };
-    let cases: Vec<Case> = programs(plen).into_iter().map(|prog| Case { prog, depth }).collect();
+    let mut cases: Vec<Case> = programs(plen).into_iter().map(|prog| Case { prog, depth, panicker: false }).collect();
+    // the same programs with a panicking listener in front of the recording one (shallower)
+    let with_panicker: Vec<Case> = programs(plen).into_iter().map(|prog| Case { prog, depth: depth - 1, panicker: true }).collect();
+    cases.extend(with_panicker);
     rep.bounds = json!({"program_steps": STEPS, "program_len": format!("<= {plen}"), "driver_ops": OPS,
-        "driver_depth": depth, "programs": cases.len(), "dedup_key": "(state(), body pc, virtual clock)"});
+        "driver_depth": depth, "programs": cases.len(), "dedup_key": "(state(), body pc, virtual clock)",
+        "listeners": "recording listener alone, and behind a listener that panics in every callback"});
     rep.require(&["programs_reaching_syscall_state", "programs_reaching_terminal_state"]);
     let cfg = RunCfg::default();
     let budget = Budget::secs(if tier == "thorough" { 1500 } else { 45 });
@@ -381,16 +421,16 @@ pub fn run(tier: &str, rep: &mut Report) {
             rep.violation(
                 &format!("c07.raw/process-died/{}", res.exit.describe()),
                 format!("program {} driver history {}: child {}", prog_json(&case.prog), hist_json(&h), res.exit.describe()),
-                json!({"engine":"seqx","scenario":"c07.raw","program":case.prog,"history":h}),
+                json!({"engine":"seqx","scenario":"c07.raw","program":case.prog,"history":h,"panicker":case.panicker}),
             );
             return;
         }
         for v in res.find("viol") {
             let h: Vec<usize> = v["history"].as_array().unwrap().iter().map(|x| x.as_u64().unwrap() as usize).collect();
             rep.violation(
-                &format!("c07.raw/{}/-", v["clause"].as_str().unwrap()),
-                format!("program {} driver history {}: {}", prog_json(&case.prog), hist_json(&h), v["detail"].as_str().unwrap()),
-                json!({"engine":"seqx","scenario":"c07.raw","program":case.prog,"history":h}),
+                &format!("c07.raw/{}/{}", v["clause"].as_str().unwrap(), if case.panicker { "behind-panicking-listener" } else { "-" }),
+                format!("program {} driver history {}{}: {}", prog_json(&case.prog), hist_json(&h), if case.panicker { " (a listener that panics in every callback is registered first)" } else { "" }, v["detail"].as_str().unwrap()),
+                json!({"engine":"seqx","scenario":"c07.raw","program":case.prog,"history":h,"panicker":case.panicker}),
             );
         }
         if let Some(d) = res.last("done") {
@@ -430,7 +470,8 @@ pub fn replay(v: &Value, em: &mut Emitter) -> bool {
     let p: Vec<usize> = p.iter().filter_map(|x| x.as_u64().map(|x| x as usize)).collect();
     let h: Vec<usize> = h.iter().filter_map(|x| x.as_u64().map(|x| x as usize)).collect();
     em.emit(json!({"t":"program","steps":prog_json(&p),"driver":hist_json(&h)}));
-    let out = run_history(&p, &h);
+    std::panic::set_hook(Box::new(|_| {}));
+    let out = run_history(&p, &h, v.get("panicker").and_then(Value::as_bool).unwrap_or(false));
     em.emit(json!({"t":"end","key":out.key,"violation":out.viol.map(|(c, d)| json!({"clause":c,"detail":d}))}));
     true
 }
